@@ -48,18 +48,18 @@ func cloneMsg(m *gabi.IssueSignatureMessage) *gabi.IssueSignatureMessage {
 }
 
 type issuanceRun struct {
-	kp       *KeyPair
-	ctx      *gbig.Int
-	nonce1   *gbig.Int
-	nonce2   *gbig.Int
-	secret   *gbig.Int
-	kssP     *gbig.Int
-	blind    []int
-	attrs    []*gbig.Int // nil at blind positions
-	builder  *gabi.CredentialBuilder
-	commit   *gabi.IssueCommitmentMessage
-	msg      *gabi.IssueSignatureMessage
-	witness  *revocation.Witness
+	kp      *KeyPair
+	ctx     *gbig.Int
+	nonce1  *gbig.Int
+	nonce2  *gbig.Int
+	secret  *gbig.Int
+	kssP    *gbig.Int
+	blind   []int
+	attrs   []*gbig.Int // nil at blind positions
+	builder *gabi.CredentialBuilder
+	commit  *gabi.IssueCommitmentMessage
+	msg     *gabi.IssueSignatureMessage
+	witness *revocation.Witness
 }
 
 // construct runs ConstructCredential on a fresh copy of the builder state (ConstructCredential
